@@ -421,7 +421,7 @@ Proof.
         eapply after_match_find; eauto. right. split; auto. split; [lia|]. apply GF; auto. lia.
     + eexists. split; [apply Hset|]. split; [reflexivity|]. simpl. split; [|intros; apply NE].
       apply FALL. simpl. destruct FC as [FC|(-> & Hj)]; [left; auto|]. right. split; auto.
-      destruct (Nat.eq_dec j j') as [->|Hne]; [right; split; auto; pose proof (GC eq_refl eq_refl) as Hin; rewrite Ec in Hin; exact Hin|].
+      destruct (Nat.eq_dec j j') as [->|Hne]; [right; split; auto; exact (GC eq_refl eq_refl)|].
       left. split; [lia|]. apply GF; auto. lia.
   - (* PCmp *)
     destruct TI as (o' & tn & Ho2 & AG & _ & Hs & Hne & Hcs & Hall). same_op' Hop Ho2 o'.
@@ -457,5 +457,165 @@ Proof.
         apply FALL. unfold start_table. simpl. lia.
       * exfalso. apply nth_error_None in Enx. lia.
   - destruct TI as (o' & Ho2 & Hf' & _). same_op' Hop Ho2 o'. congruence.
+Qed.
+
+Lemma idle_step s t s' th : step hash s t = Some s' -> nth_error (threads s) t = Some th -> tpc th = Idle ->
+  exists th' b, nth_error (threads s') t = Some th' /\ tpc th' = PLoad 0 0 0 b /\ tabs s' = tabs s.
+Proof.
+  unfold step. intros H Ht Hpc. rewrite Ht in H. revert H. unfold step_thread.
+  destruct (nth_error (prog th) (opi th)) as [o|]; [|discriminate]. rewrite Hpc.
+  destruct (nth_error (tabs s) 0); [|discriminate]. intros E; inversion E; subst s'; clear E.
+  eexists _, _. split; [apply nth_error_set_nth_eq; eapply nth_len; eauto|]. split; reflexivity.
+Qed.
+
+(* ================= the linearisation invariant: stamps, published keys, lookups in flight ================= *)
+Record LInv (s : st) : Prop := {
+  li_dk : DKInv s;
+  li_gl : GL s;
+  li_f : forall t th o, nth_error (threads s) t = Some th -> tpc th <> Idle -> cur_op th = Some o -> is_find o = true ->
+           fpub th = true -> In (okey o) (done_keys s) /\ FPROG (tabs s) (okey o) (tpc th);
+  li_fres : forall t i o sn a b e, event_st s t i o (RFind None sn a) b e -> a = false;
+  li_s1 : forall t i o r b e, event_st s t i o r b e -> (b <= e)%nat /\ (e < now s)%nat;
+  li_s2 : forall t th, nth_error (threads s) t = Some th -> tpc th <> Idle -> (tbegin th < now s)%nat;
+  li_s3 : forall t i o r b e, event_st s t i o r b e -> is_find o = false -> slot_of r <> None -> In (okey o) (done_keys s);
+  li_s4 : forall t i o r b e t' th' o', event_st s t i o r b e -> is_find o = false -> slot_of r <> None ->
+           nth_error (threads s) t' = Some th' -> tpc th' <> Idle -> cur_op th' = Some o' -> okey o' = okey o ->
+           (e < tbegin th')%nat -> fpub th' = true;
+  li_s5 : forall t i o r b e t' i' o' r' b' e', event_st s t i o r b e -> is_find o = false -> slot_of r <> None ->
+           event_st s t' i' o' r' b' e' -> is_find o' = true -> okey o' = okey o -> (e < b')%nat -> rflag r' = true
+}.
+
+Lemma existsb_in k dk : In k dk -> existsb (Z.eqb k) dk = true.
+Proof. intros H. apply existsb_exists. exists k. split; auto. apply Z.eqb_refl. Qed.
+Lemma existsb_in_inv k dk : existsb (Z.eqb k) dk = true -> In k dk.
+Proof. intros H. apply existsb_exists in H. destruct H as (x & Hx & E). apply Z.eqb_eq in E. subst. auto. Qed.
+
+Lemma step_linv s t s' : Inv hash s -> RInv hash s -> LInv s -> step hash s t = Some s' -> LInv s'.
+Proof.
+  intros I R L H. destruct (step_inv _ _ _ _ I H) as (I' & LX). pose proof (step_rinv _ _ _ _ I R H) as R'.
+  pose proof H as H0. unfold step in H0. destruct (nth_error (threads s) t) as [th|] eqn:Ht; [|discriminate]. clear H0.
+  destruct (step_shape _ _ _ _ H Ht) as (o & th' & Hop & Hthr & Hnow & Hgrow & Hprog & Hmono & Hcase).
+  pose proof (ri_len _ _ R _ _ Ht) as Hlen.
+  assert (Hnew : nth_error (threads s') t = Some th').
+  { rewrite Hthr. apply nth_error_set_nth_eq. eapply nth_len; eauto. }
+  assert (THR : forall t1 x, nth_error (threads s') t1 = Some x -> (t1 = t /\ x = th') \/ (t1 <> t /\ nth_error (threads s) t1 = Some x)).
+  { intros t1 x Hx. rewrite Hthr in Hx. apply (nth_set_threads _ _ _ _ _ _ Ht Hx). }
+  assert (Hcur : tpc th' <> Idle -> cur_op th' = Some o).
+  { intros Hni. unfold cur_op. rewrite Hprog. destruct Hcase as [(_ & _ & -> & _)|[(_ & -> & _)|(_ & r & Hi & _)]]; auto. congruence. }
+  (* an event of s' is an event of s or the result just appended *)
+  assert (EV : forall t1 i o1 r b e, event_st s' t1 i o1 r b e ->
+            event_st s t1 i o1 r b e \/
+            (t1 = t /\ i = opi th /\ o1 = o /\ tpc th <> Idle /\ b = tbegin th /\ e = now s /\ tpc th' = Idle /\
+             results th' = results th ++ [(r, b, e)] /\
+             match r with RFind _ _ a => a = fpub th /\ is_find o = true | REmp _ _ _ _ => In (okey o) (done_keys s') | RFull => True end)).
+  { intros t1 i o1 r b e (x & Hx & Ho1 & Hr). destruct (THR _ _ Hx) as [(-> & ->)|(Hne & Hx')]; [|left; exists x; auto].
+    rewrite Hprog in Ho1. destruct Hcase as [(_ & _ & _ & Er & _)|[(_ & _ & Er & _)|(Hni & r0 & Hi & Eo & Er & Hm)]].
+    - left. exists th. rewrite Er in Hr. auto.
+    - left. exists th. rewrite Er in Hr. auto.
+    - rewrite Er in Hr. destruct (Nat.lt_ge_cases i (length (results th))) as [Hlt|Hge].
+      + rewrite nth_error_app1 in Hr by auto. left. exists th. auto.
+      + rewrite nth_error_app2 in Hr by auto. destruct (i - length (results th))%nat eqn:Ed; simpl in Hr; [|destruct n; discriminate].
+        inversion Hr; subst r0 b e. assert (i = opi th) by lia. subst i. right.
+        unfold cur_op in Hop. rewrite Hop in Ho1. inversion Ho1; subst o1. repeat split; auto. }
+  destruct (step_dkinv _ _ _ I (conj (li_dk _ L) (li_gl _ L)) H) as (D' & G').
+  constructor; auto.
+  - (* lookups in flight *)
+    intros t1 x o1 Hx Hni Hc1 Hf1 Hp1. destruct (THR _ _ Hx) as [(-> & ->)|(Hne & Hx')].
+    + pose proof (Hcur Hni) as Hc2. rewrite Hc1 in Hc2. inversion Hc2; subst o1.
+      destruct Hcase as [(Hi & _ & _ & _ & _ & Efp)|[(Hni0 & Eo & Er & Etb & Efp)|(_ & r & Hi & _)]]; [| |congruence].
+      * destruct (idle_step _ _ _ _ H Ht Hi) as (th2 & b0 & Hth2 & Hpc2 & Etabs). rewrite Hnew in Hth2. inversion Hth2; subst th2.
+        rewrite Efp in Hp1. split; [apply Hmono; apply existsb_in_inv; auto|]. rewrite Hpc2.
+        intros n' tn' idx' j' c' _. simpl. lia.
+      * rewrite Efp in Hp1. destruct (li_f _ L _ _ _ Ht Hni0 Hop Hf1 Hp1) as (Hdk & F).
+        destruct (find_step _ _ _ _ _ I (li_dk _ L) (li_gl _ L) H Ht Hop Hf1 Hni0 Hdk F) as (th2 & Hth2 & Etabs & F2 & _).
+        rewrite Hnew in Hth2. inversion Hth2; subst th2. split; [auto|]. rewrite Etabs. exact F2.
+    + destruct (li_f _ L _ _ _ Hx' Hni Hc1 Hf1 Hp1) as (Hdk & F). split; [auto|].
+      eapply FPROG_ext; eauto. apply (li_dk _ L). auto.
+  - (* a lookup that began after the publication never returns end() *)
+    intros t1 i o1 sn a b e Hev. destruct (EV _ _ _ _ _ _ Hev) as [Hold|(-> & -> & -> & Hni0 & _ & _ & _ & Er & (Ea & Hf0))].
+    + eapply (li_fres _ L); eauto.
+    + destruct a; [|reflexivity]. exfalso. symmetry in Ea.
+      destruct (li_f _ L _ _ _ Ht Hni0 Hop Hf0 Ea) as (Hdk & F).
+      destruct (find_step _ _ _ _ _ I (li_dk _ L) (li_gl _ L) H Ht Hop Hf0 Hni0 Hdk F) as (th2 & Hth2 & _ & _ & NR).
+      rewrite Hnew in Hth2. inversion Hth2; subst th2. eapply NR; eauto.
+  - (* stamps of events *)
+    intros t1 i o1 r b e Hev. destruct (EV _ _ _ _ _ _ Hev) as [Hold|(-> & -> & -> & Hni0 & -> & -> & _)].
+    + destruct (li_s1 _ L _ _ _ _ _ _ Hold). lia.
+    + pose proof (li_s2 _ L _ _ Ht Hni0). lia.
+  - (* begin stamps of running operations *)
+    intros t1 x Hx Hni. destruct (THR _ _ Hx) as [(-> & ->)|(Hne & Hx')]; [|pose proof (li_s2 _ L _ _ Hx' Hni); lia].
+    destruct Hcase as [(_ & _ & _ & _ & Etb & _)|[(Hni0 & _ & _ & Etb & _)|(_ & r & Hi & _)]]; [lia| |congruence].
+    pose proof (li_s2 _ L _ _ Ht Hni0). lia.
+  - (* returned insertions are in done_keys *)
+    intros t1 i o1 r b e Hev Hf1 Hs1. destruct (EV _ _ _ _ _ _ Hev) as [Hold|(-> & -> & -> & _ & _ & _ & _ & _ & Hm)].
+    + apply Hmono. eapply (li_s3 _ L); eauto.
+    + destruct r as [n0 x0 ins sn| |x0 sn a]; [exact Hm|simpl in Hs1; congruence|destruct Hm; congruence].
+  - (* an operation that begins after a returned insertion of its key knows it *)
+    intros t1 i o1 r b e t2 x o2 Hev Hf1 Hs1 Hx Hni Hc2 Hk Hlt.
+    destruct (EV _ _ _ _ _ _ Hev) as [Hold|(-> & -> & -> & Hni0 & _ & -> & Hi' & _)].
+    + destruct (THR _ _ Hx) as [(-> & ->)|(Hne & Hx')]; [|eapply (li_s4 _ L); eauto].
+      pose proof (Hcur Hni) as Hc3. rewrite Hc2 in Hc3. inversion Hc3; subst o2.
+      destruct Hcase as [(_ & _ & _ & _ & _ & Efp)|[(Hni0 & Eo & Er & Etb & Efp)|(_ & r0 & Hi & _)]]; [| |congruence].
+      * rewrite Efp. apply existsb_in. rewrite Hk. eapply (li_s3 _ L); eauto.
+      * rewrite Efp. rewrite Etb in Hlt. eapply (li_s4 _ L); eauto.
+    + destruct (THR _ _ Hx) as [(-> & ->)|(Hne & Hx')]; [congruence|].
+      pose proof (li_s2 _ L _ _ Hx' Hni). lia.
+  - (* the stamp statement itself, with the flag a lookup carries *)
+    intros t1 i o1 r b e t2 i2 o2 r2 b2 e2 Hev Hf1 Hs1 Hev2 Hf2 Hk Hlt.
+    destruct (EV _ _ _ _ _ _ Hev) as [Hold|(-> & -> & -> & Hni0 & _ & -> & _ & _ & Hm)];
+    destruct (EV _ _ _ _ _ _ Hev2) as [Hold2|(-> & -> & -> & Hni2 & -> & -> & _ & Er2 & Hm2)].
+    + eapply (li_s5 _ L); eauto.
+    + destruct (ri_res _ _ R' _ _ _ _ _ _ Hnew ltac:(rewrite Er2, nth_error_app2, Hlen, Nat.sub_diag by lia; reflexivity)) as (o3 & Ho3 & HR).
+      rewrite Hprog in Ho3. unfold cur_op in Hop. rewrite Hop in Ho3. inversion Ho3; subst o3.
+      destruct r2 as [n0 x0 ins sn| |x0 sn a].
+      * destruct HR as (Hf3 & _). congruence.
+      * destruct HR as (Hf3 & _). congruence.
+      * destruct Hm2 as (-> & _). simpl. eapply (li_s4 _ L); eauto.
+    + destruct (li_s1 _ L _ _ _ _ _ _ Hold2). lia.
+    + congruence.
+Qed.
+
+Lemma init_linv cap g progs : LInv (init cap g progs).
+Proof.
+  assert (NE : forall t i o r b e, ~ event_st (init cap g progs) t i o r b e).
+  { intros t i o r b e (th & Hth & _ & Hr). simpl in Hth. apply nth_error_In in Hth. apply in_map_iff in Hth.
+    destruct Hth as (p & <- & _). simpl in Hr. destruct i; discriminate. }
+  assert (ID : forall t th, nth_error (threads (init cap g progs)) t = Some th -> tpc th = Idle).
+  { intros t th Hth. simpl in Hth. apply nth_error_In in Hth. apply in_map_iff in Hth. destruct Hth as (p & <- & _). reflexivity. }
+  constructor.
+  - intros k [].
+  - intros _. reflexivity.
+  - intros t th o Hth Hni. rewrite (ID _ _ Hth) in Hni. congruence.
+  - intros t i o sn a b e Hev. destruct (NE _ _ _ _ _ _ Hev).
+  - intros t i o r b e Hev. destruct (NE _ _ _ _ _ _ Hev).
+  - intros t th Hth Hni. rewrite (ID _ _ Hth) in Hni. congruence.
+  - intros t i o r b e Hev. destruct (NE _ _ _ _ _ _ Hev).
+  - intros t i o r b e t' th' o' Hev. destruct (NE _ _ _ _ _ _ Hev).
+  - intros t i o r b e t' i' o' r' b' e' Hev. destruct (NE _ _ _ _ _ _ Hev).
+Qed.
+
+Lemma hc_linv cap g progs s : Reach hash cap g progs s -> LInv s.
+Proof.
+  intros R. assert (G : (Inv hash s /\ RInv hash s) /\ LInv s); [|apply G].
+  revert s R. apply (inv_reachable st (step hash) (fun s => (Inv hash s /\ RInv hash s) /\ LInv s)).
+  - split; [split; [apply init_inv|apply init_rinv]|apply init_linv].
+  - intros s0 t s1 ((I & R) & L) H. split; [split; [apply (step_inv _ _ _ _ I H)|eapply step_rinv; eauto]|eapply step_linv; eauto].
+Qed.
+
+(* --- a lookup whose begin stamp is after the end stamp of an insertion of its key that returned a slot finds that slot --- *)
+Theorem hc_find_after_insert : find_after_insert_stmt hash.
+Proof.
+  intros cap g progs s t i o r b e t' i' o' r' b' e' n x sn R Hev Hf Hs Hev' Hf' Hk Hlt.
+  pose proof (hc_linv _ _ _ _ R) as L.
+  assert (Hs0 : slot_of r <> None) by congruence.
+  pose proof (li_s5 _ L _ _ _ _ _ _ _ _ _ _ _ _ Hev Hf Hs0 Hev' Hf' Hk Hlt) as Hflag.
+  assert (E1 : event s t i o r). { destruct Hev as (th & ? & ? & ?). exists th, b, e. auto. }
+  assert (E2 : event s t' i' o' r'). { destruct Hev' as (th & ? & ? & ?). exists th, b', e'. auto. }
+  pose proof (event_res _ _ _ _ _ _ _ _ _ R E2) as HR.
+  destruct r' as [n0 x0 ins sn0| |[[n0 x0]|] sn0 a].
+  - destruct HR as (Hf3 & _). congruence.
+  - destruct HR as (Hf3 & _). congruence.
+  - destruct (hc_same_element _ _ _ _ _ _ _ _ _ _ _ _ _ _ _ _ _ _ R E1 E2 (eq_sym Hk) Hs eq_refl) as (-> & -> & _). eauto.
+  - simpl in Hflag. subst a. pose proof (li_fres _ L _ _ _ _ _ _ _ Hev'). discriminate.
 Qed.
 End Lin.
